@@ -12,6 +12,7 @@ import (
 
 	"helm.sh/helm/v4/pkg/plugin/installer"
 
+	"verif/harness/internal/chartx"
 	"verif/harness/internal/hx"
 )
 
@@ -57,7 +58,7 @@ func c16CoqJoin(c *c16Case, obs *c16Obs) string {
 	var o string
 	switch obs.Err {
 	case "":
-		o = "(inr " + hx.CoqStr(obs.Path) + ")"
+		o = "(inr " + chartx.CoqStr(obs.Path) + ")"
 	case "colon":
 		o = "(inl CJColon)"
 	case "dotdot":
@@ -67,7 +68,7 @@ func c16CoqJoin(c *c16Case, obs *c16Obs) string {
 	default:
 		return "CPanic"
 	}
-	return fmt.Sprintf("CJoin %s %s %s", hx.CoqStr(c.Root), hx.CoqStr(c.Dest), o)
+	return fmt.Sprintf("CJoin %s %s %s", chartx.CoqStr(c.Root), chartx.CoqStr(c.Dest), o)
 }
 
 func c16GenJoin(r *rand.Rand) c16Case {
